@@ -59,6 +59,13 @@ def image_case(draw):
                     arg = draw(st.integers(0, 7)) & (6 if c["enc"] == "FM" else 7)
                 ops.append([draw(st.sampled_from([0, 1, 5, 100, 255, 256, 300, 511, 512, 1000])), k, arg])
         c["v3ops"] = ops
+        # sector-level oddities recorded with VALID CRCs (what a byte-level mutation cannot produce)
+        fq = []
+        for _ in range(draw(st.sampled_from([0, 0, 1, 2]))):
+            fq.append([draw(st.integers(0, c["tracks"] - 1)), draw(st.integers(0, c["spt"] - 1)),
+                       draw(st.sampled_from(["size0", "size2", "size3", "dup", "wrongcyl", "wronghead", "deleted",
+                                             "badcrc", "deleted-badcrc"]))])
+        c["flux_quirks"] = fq
     else:
         c["tracks"] = draw(st.sampled_from([40, 80, 35]))
         c["spt"] = 18 if ext in ("sdd", "ddd") else 10
@@ -108,6 +115,29 @@ def cli_case(draw):
 
 # ---------------------------------------------------------------- image construction + structure-aware mutation
 
+QUIRK = {"size0": {"size_code": 0}, "size2": {"size_code": 2}, "size3": {"size_code": 3}, "dup": {"dup": True},
+         "wrongcyl": {"cyl": 77}, "wronghead": {"head": 1}, "deleted": {"mark": 0xF8}, "badcrc": {"crc_xor": 0x0100},
+         "deleted-badcrc": {"mark": 0xF8, "crc_xor": 1}}
+
+
+def flux_quirks_fn(c):
+    fq = c.get("flux_quirks") or []
+    if not fq:
+        return None
+
+    def fn(t, sd):
+        return {sec: QUIRK[kind] for tt, sec, kind in fq if tt == t}
+    return fn
+
+
+def flux_track_bytes(c):
+    """room for up to two 1024-byte sectors"""
+    if not c.get("flux_quirks"):
+        return None
+    nominal = 3125 if c.get("enc") == "FM" else 6250
+    return nominal + 2200
+
+
 def build_image(c):
     s = c["surface"]
     ext = c["ext"]
@@ -135,6 +165,7 @@ def build_image(c):
         bounds += [16, 32, 8192, 8192 + 256, 8192 + 512]
     elif ext == "hfe":
         sides = [img] * c["nsides"]
+        quirks_fn = flux_quirks_fn(c)
         v3ops = None
         if c.get("v3ops"):
             def v3ops(t, sd, ops=c["v3ops"]):
@@ -142,11 +173,13 @@ def build_image(c):
                 for pos, k, arg in ops:
                     d.setdefault(pos, []).append((k, arg))
                 return d
-        data = flux.hfe_from_sides(sides, c["tracks"], c["spt"], c["enc"], version=c["version"], v3ops=v3ops)
+        data = flux.hfe_from_sides(sides, c["tracks"], c["spt"], c["enc"], version=c["version"], v3ops=v3ops,
+                                   quirks_fn=quirks_fn, track_bytes=flux_track_bytes(c))
         bounds += [8, 9, 10, 11, 12, 18, 20, 512, 512 + 4, 512 + 4 * c["tracks"], 1024, 1024 + 256, 1024 + 512]
     else:
         sides = [img] * c["nsides"]
-        data = flux.hxcmfm_from_sides(sides, c["tracks"], c["spt"])
+        data = flux.hxcmfm_from_sides(sides, c["tracks"], c["spt"], quirks_fn=flux_quirks_fn(c),
+                                      track_bytes=flux_track_bytes(c) or 6250)
         bounds += [7, 9, 10, 15, 19, 19 + 11, 19 + 11 * c["tracks"] * c["nsides"]]
     return bytearray(data), sorted(set(b for b in bounds if b <= len(data)))
 
